@@ -226,6 +226,12 @@ def one_pair(ctx, sf, base, kind, var, reqs, pending, gaussian_only):
             why = None
             fields1 = [(o["cls"], o.get("pars"), o["regs"], bool(o.get("dagger")), o.get("select")) for o in base["ops"]]
             fields2 = [(o["cls"], o.get("pars"), o["regs"], bool(o.get("dagger")), o.get("select")) for o in var["ops"]]
+            if name == "equivalent":  # mode-symmetric gates (ASSUMPTIONS): only the set of wires matters
+                sym = lambda o: (o["cls"] in ("S2gate", "CZgate", "CKgate")
+                                 or cmds_for_model(dict(ops=[o]))[0]["cls"] in ("CXgate0", "BSgateSym"))
+                canon = lambda o: sorted(o["regs"]) if sym(o) else o["regs"]
+                fields1 = [(o["cls"], o.get("pars"), canon(o), bool(o.get("dagger")), o.get("select")) for o in base["ops"]]
+                fields2 = [(o["cls"], o.get("pars"), canon(o), bool(o.get("dagger")), o.get("select")) for o in var["ops"]]
             if name == "equal" and (fields1 != fields2 or base["n"] != var["n"]):
                 why = "programs differ field by field"
             if gaussian_only:
